@@ -1,6 +1,8 @@
 """C12 — work-unit lifecycle: exit, cancel, auto-free and revive follow the state machine.
 Ties: T1 (skeletons of the scheduling / context-switch / life-cycle functions), T3 (vsched traces of generated work-unit
-programs validated against Model.Sched), scenario monitors + deadlock detection for the failing-input search."""
+programs validated against Model.Sched, and every join hand-shake in them against Model.Join: the exit path of a unit
+waits only for a joiner that is committed to publish its link), scenario monitors + deadlock detection for the
+failing-input search."""
 from checks import sched_common as S
 
 ASSUMPTIONS = list(S.BASE_ASSUMPTIONS)
@@ -8,7 +10,7 @@ EXTRA_T1 = [('thread.c', 'ABT_thread_cancel'), ('thread.c', 'ABT_thread_exit'), 
 
 
 def run(res, tier, broken):
-    S.run_sched(res, tier, broken, "C12", EXTRA_T1)
+    S.run_sched(res, tier, broken, "C12", EXTRA_T1, validate_fn=S.validate_with_join)
 
 
 def replay(res, path):
